@@ -24,6 +24,8 @@ SUITES = {
     "soilinit": ("suites.soilinit", "soilinit", "Init/SoilBuild.v: Soil, create_soil_profile, deepening, initial water content"),
     "day": ("suites.day", "day", "Day.v: plumbing of run_single_timestep and reset_initial_conditions (L2 replay)"),
     "dayc": ("suites.dayc", "dayc", "DayConcrete.v: one whole day = Day.v's orchestration instantiated with the 19 unit process models (no replayed process), against real simulated days"),
+    "runc": ("suites.runc", "dayc", "RunConcrete.v: the WHOLE RUN = Clock.v's guarded run loop + Day.v's season reset around the concrete day; the extracted run_till_c runs complete simulations on its own "
+             "(state flowing from day to day, nothing recorded fed back) and all three daily tables, the summary rows and the final clock/state are compared with the implementation's"),
     "calendar": ("suites.calendar_", "calendar", "Init/Calendar.v: dates, season list, crop calendar"),
     "inputs": ("suites.inputs", "inputs", "Init/Inputs.v: weather binding, schedule re-indexing, groundwater series, CO2"),
 }
@@ -35,7 +37,10 @@ def run_suites(names_counts, tier, pid):
         modname, unit, what = SUITES[name]
         try:
             mod = importlib.import_module(modname)
-            r = l1.run_suite(name, mod.gen, nq if tier == "quick" else nt, seed_names=(pid,), unit=unit)
+            if hasattr(mod, "run_custom"):     # suites that run whole simulations in parallel workers (runc)
+                r = mod.run_custom(nq if tier == "quick" else nt, pid)
+            else:
+                r = l1.run_suite(name, mod.gen, nq if tier == "quick" else nt, seed_names=(pid,), unit=unit)
         except Exception as e:
             import traceback
             r = {"suite": name, "cases": 0, "distinct": 0, "agree": 0, "disagree": 0, "error": "suite failed to run: " + traceback.format_exc()[-600:]}
@@ -95,6 +100,7 @@ FOCUS = {
     "clock": [dict(off_season=True, seasons=3), dict(off_season=False, seasons=3)],
     "day": [dict(off_season=True), dict(method=4)],
     "dayc": [dict(off_season=True), dict(method=4)],
+    "runc": [dict(off_season=True, seasons=3), dict(off_season=False, seasons=3)],
     "calendar": [dict(start_mode="after"), dict(start_mode="before", end_mode="mid")],
     "soilinit": [dict(soil_type="custom", strict=False), dict(soil_type="texture")],
 }
